@@ -354,12 +354,107 @@ func rulesC16(c *Ctx) {
 // sendsBefore counts the channel send statements that lie on the straight-line path to the exit
 // node: sends in the same block before it, or in enclosing blocks before the statement containing
 // it (sends nested in other branches are not on this path).
+// isSend: a send statement, or a call of a private helper whose body sends exactly once, unconditionally.
+func (p *Prog) isSend(s ast.Stmt) bool {
+	if _, ok := s.(*ast.SendStmt); ok {
+		return true
+	}
+	es, ok := s.(*ast.ExprStmt)
+	if !ok {
+		return false
+	}
+	call, ok := es.X.(*ast.CallExpr)
+	if !ok {
+		return false
+	}
+	callee := p.Callee(call)
+	if callee == nil || p.FuncOf[callee] == nil || p.FuncOf[callee].Decl.Body == nil {
+		return false
+	}
+	body := p.FuncOf[callee].Decl.Body
+	// every path through the helper sends exactly once
+	unknown := false
+	var walk func(list []ast.Stmt, counts map[int]bool) (fall map[int]bool, done map[int]bool)
+	walk = func(list []ast.Stmt, counts map[int]bool) (map[int]bool, map[int]bool) {
+		done := map[int]bool{}
+		cur := counts
+		for _, st := range list {
+			next := map[int]bool{}
+			switch x := st.(type) {
+			case *ast.SendStmt:
+				for c := range cur {
+					next[c+1] = true
+				}
+			case *ast.ReturnStmt:
+				for c := range cur {
+					done[c] = true
+				}
+				return map[int]bool{}, done
+			case *ast.IfStmt:
+				f1, d1 := walk(x.Body.List, cur)
+				for c := range d1 {
+					done[c] = true
+				}
+				for c := range f1 {
+					next[c] = true
+				}
+				switch e := x.Else.(type) {
+				case nil:
+					for c := range cur {
+						next[c] = true
+					}
+				case *ast.BlockStmt:
+					f2, d2 := walk(e.List, cur)
+					for c := range d2 {
+						done[c] = true
+					}
+					for c := range f2 {
+						next[c] = true
+					}
+				case *ast.IfStmt:
+					f2, d2 := walk([]ast.Stmt{e}, cur)
+					for c := range d2 {
+						done[c] = true
+					}
+					for c := range f2 {
+						next[c] = true
+					}
+				}
+			case *ast.ForStmt, *ast.RangeStmt, *ast.SwitchStmt, *ast.TypeSwitchStmt, *ast.SelectStmt, *ast.GoStmt, *ast.DeferStmt:
+				ast.Inspect(st, func(n ast.Node) bool {
+					if _, isS := n.(*ast.SendStmt); isS {
+						unknown = true
+					}
+					return true
+				})
+				next = cur
+			default:
+				next = cur
+			}
+			cur = next
+		}
+		return cur, done
+	}
+	fall, done := walk(body.List, map[int]bool{0: true})
+	if unknown {
+		return false
+	}
+	all := map[int]bool{}
+	for c := range fall {
+		all[c] = true
+	}
+	for c := range done {
+		all[c] = true
+	}
+	return len(all) == 1 && all[1]
+}
+
 func (p *Prog) sendsBefore(fn *Func, exit ast.Node) int {
 	n := 0
 	cur := exit
 	if cur == ast.Node(fn.Decl.Body) {
 		for _, s := range fn.Decl.Body.List {
-			if _, ok := s.(*ast.SendStmt); ok {
+			if p.isSend(s) {
 				n++
 			}
 		}
@@ -375,7 +470,7 @@ func (p *Prog) sendsBefore(fn *Func, exit ast.Node) int {
 				if s.Pos() >= cur.Pos() {
 					break
 				}
-				if _, isSend := s.(*ast.SendStmt); isSend {
+				if p.isSend(s) {
 					n++
 				}
 			}
